@@ -13,6 +13,10 @@ package main
 // (obligation `ownership`). Separation gives the frame: whatever a callee does not consume is untouched.
 
 import (
+	"os"
+	"time"
+	"crypto/sha256"
+	"sync"
 	"fmt"
 	"go/types"
 	"sort"
@@ -154,7 +158,27 @@ func sortedChunkKeys(m map[string]*Chunk) []string {
 // entails: is the formula a consequence of the path condition? (synchronous, short timeout; "no" when unsure)
 func (e *Engine) entails(st *State, f Term) bool {
 	o := &Obligation{Name: "entails", Assume: st.pc, Goal: f, Ctx: e.ctx}
-	status, _, _ := runSolver(solvers[0], o.script("q", false), 1500, optSeed)
+	// the quantifier-free part decides almost every chunk identification at once (unsat there is unsat in full);
+	// the full path condition is only consulted when GOVC_ENTAIL_FULL is set
+	script := o.script("cover-noq", false)
+	if os.Getenv("GOVC_ENTAIL_FULL") != "" {
+		script = o.script("q", false)
+	}
+	h := sha256.Sum256([]byte(script))
+	entailMu.Lock()
+	r, ok := entailCache[h]
+	entailMu.Unlock()
+	if ok {
+		return r
+	}
+	t0 := time.Now()
+	status, _, _ := runSolver(solvers[0], script, 1500, optSeed)
+	if os.Getenv("GOVC_DEBUG_ENTAIL") != "" {
+		fmt.Fprintf(os.Stderr, "entail %s %s %.2fs %s\n", e.funcName, status, time.Since(t0).Seconds(), f.S)
+	}
+	entailMu.Lock()
+	entailCache[h] = status == "unsat"
+	entailMu.Unlock()
 	return status == "unsat"
 }
 
@@ -330,3 +354,8 @@ func (e *Engine) newOwned(st *State, od *OwnedDecl, ref Term, elem types.Type) {
 	z := e.zeroVal(elem)
 	st.setChunk(&Chunk{Open: true, Ref: ref, F: z.L})
 }
+
+var (
+	entailMu    sync.Mutex
+	entailCache = map[[32]byte]bool{}
+)
